@@ -131,6 +131,14 @@ CONSTANTS = {
         ("SH_CSV_WRITER_BUILD", "arrow-csv/src/writer.rs", r"\.delimiter\(self\.delimiter\)\s*\.quote\(self\.quote\)\s*\.quote_style\(self\.quote_style\)\s*\.double_quote\(self\.double_quote\)\s*\.escape\(self\.escape\)\s*\.terminator\(terminator\)()", "intlist"),
         ("SH_CSV_PARSER", "arrow-csv/src/reader/mod.rs", r"let mut builder = csv_core::ReaderBuilder::new\(\);\s*builder\.escape\(self\.escape\);\s*builder\.comment\(self\.comment\);\s*if let Some\(c\) = self\.delimiter \{\s*builder\.delimiter\(c\);\s*\}\s*if let Some\(c\) = self\.quote \{\s*builder\.quote\(c\);\s*\}\s*if let Some\(t\) = self\.terminator \{\s*builder\.terminator\(csv_core::Terminator::Any\(t\)\);\s*\}\s*builder\.build\(\)()", "intlist"),
         ("SH_CSV_NULL", "arrow-csv/src/reader/mod.rs", r"fn is_null\(&self, s: &str\) -> bool \{\s*match &self\.0 \{\s*Some\(r\) => r\.is_match\(s\),\s*None => s\.is_empty\(\),()", "intlist"),
+        # statements introduced by the repairs e150153 / cca1e8c / da4266d / c4c0c75 / 398e708: reverting one of them is LOST
+        ("SH_LIST_VALUES", _ENC, r"encode_blocked_range\(out, start, end, \|out, row\| self\.values\.encode\(out, row\)\)()", "intlist"),
+        ("SH_MAP_VALUES", _ENC, r"let write_item = \|out: &mut W, j: usize\| self\.values\.encode\(out, j\);()", "intlist"),
+        ("SH_VIEW_NULLS", _REC, r"Self::StringView\(offsets, values\) => \{\s*let offsets = flush_offsets\(offsets\);\s*let values = flush_values\(values\);\s*let array = StringArray::try_new\(offsets, values\.into\(\), nulls\)\?;\s*Arc::new\(StringViewArray::from_iter\(array\.iter\(\)\)\)()", "intlist"),
+        ("SH_UUID_VIEW", "arrow-avro/src/codec.rs", r"""\(Some\("uuid"\), c @ \(Codec::Utf8 \| Codec::Utf8View\)\) => \{()""", "intlist"),
+        ("SH_OCF_HEADER", _FMT, r"let avro_schema = match schema\.metadata\.get\(SCHEMA_METADATA_KEY\) \{\s*(?://[^\n]*\n\s*)*Some\(json\) => AvroSchema::new\(json\.clone\(\)\),\s*None => AvroSchema::from_arrow_with_options\(()", "intlist"),
+        ("SH_OCF_HEADER_PICK", "arrow-avro/src/writer/mod.rs", r"let header_schema = if self\.schema\.metadata\.contains_key\(SCHEMA_METADATA_KEY\) \{\s*schema\.as_ref\(\)\s*\} else \{\s*&self\.schema\s*\};\s*format\.start_stream\(&mut writer, header_schema, self\.codec\)\?;()", "intlist"),
+        ("SH_TRAILING_BYTES", "arrow-avro/src/reader/mod.rs", r"if self\.block_cursor < self\.block_data\.len\(\) \{\s*if self\.block_count == 0 \{\s*(?://[^\n]*\n\s*)*return Err\(AvroError::ParseError\(()", "intlist"),
         ("SH_TAPE_ESCAPES", _TAPE, r"""b'"' => b'"',\s*b'\\\\' => b'\\\\',\s*b'/' => b'/',\s*b'b' => 8,[^\n]*\n\s*b'f' => 12,[^\n]*\n\s*b'n' => b'\\n',\s*b'r' => b'\\r',\s*b't' => b'\\t',()""", "intlist"),
         ("SH_TAPE_STRING", _TAPE, r"""let s = iter\.skip_chrs\(b'\\\\', b'"'\);\s*self\.bytes\.extend_from_slice\(s\);\s*match next!\(iter\) \{\s*b'\\\\' => self\.stack\.push\(DecoderState::Escape\),()""", "intlist"),
         ("SH_CSV_WRITER_DEFAULTS", "arrow-csv/src/writer.rs", r"""delimiter: b',',\s*has_header: true,\s*quote: b'"',\s*escape: b'\\\\',\s*terminator: Terminator::Any\(b'\\n'\),\s*double_quote: true,()""", "intlist"),
